@@ -23,6 +23,7 @@ R6  ownership: every write to the three bookkeeping features in the function
 """
 import ast
 
+from ..astutil import oriented
 from ..astutil import (text, access_path, calls_in, func_params, stmts_of, is_const, const_value, method_call, range_bounds,
                        store_targets, fold)
 from ..loader import where, AnalysisError
@@ -487,9 +488,9 @@ def run(ctx):
                         break
                     zero = None
                     for e in p.events:
-                        if e.kind == "guard" and isinstance(e.node, ast.Compare) and feat(e.node.left) == (qn, "domination_counter") \
-                                and is_const(e.node.comparators[0]) and const_value(e.node.comparators[0]) == 0 and isinstance(e.node.ops[0], ast.Eq):
-                            zero = e.val
+                        o_ = oriented(e.node, lambda n_: feat(n_) == (qn, "domination_counter")) if e.kind == "guard" else None
+                        if o_ is not None and is_const(o_[2]) and const_value(o_[2]) == 0 and o_[1] in (ast.Eq, ast.NotEq):
+                            zero = e.val if o_[1] is ast.Eq else not e.val
                             di = p.events.index(e)
                             if not any(x.kind == "stmt" and x.node is decs[0] for x in p.events[:di]):
                                 problems.append(("violated", "the zero test reads the counter before it is decremented"))
